@@ -24,7 +24,10 @@ RULE = ('Hypothesis draws (charset, texts for 1-4 text-carrying meta events of a
         'after EVERY call, succeeded or raised, a probe through the public API (MetaMessage("text", text="e-acute").bytes() '
         'ends in E9 and from_bytes([FF,01,01,E9]).text is e-acute) shows latin1 in force. Non-trivial: success = charset '
         'other than latin1 and a character whose encoding differs from latin1; fault = the call raised inside the charset '
-        'scope. Distinct by (charset, texts, fault point).')
+        'scope. Distinct by (charset, texts, fault point).'
+        ' Later additions: failing write() at every call, exception kept alive, with-form, by file name, charset'
+        ' aliases, texts that look like another encoding\'s signature or are special in Unicode (BOMs, U+FEFF,'
+        ' UTF-7/ISO-2022 escapes), latin1 transparency probes after every call.')
 ASSUMPTIONS = ['run_case resets the module-level charset at its top so that one leak cannot contaminate later cases']
 
 CHARSETS = ['latin1', 'utf-8', 'cp1252', 'ascii', 'shift_jis', 'euc_jp', 'big5', 'koi8_r', 'cp437', 'iso8859_15',
